@@ -58,11 +58,18 @@ func TapWithContext[T any](onNext func(ctx context.Context, value T), onError fu
 						destination.NextWithContext(ctx, value)
 					},
 					func(ctx context.Context, err error) {
-						onError(ctx, err)
+						if panicked := tryUserCallback(func() { onError(ctx, err) }); panicked != nil {
+							err = panicked
+						}
+
 						destination.ErrorWithContext(ctx, err)
 					},
 					func(ctx context.Context) {
-						onComplete(ctx)
+						if panicked := tryUserCallback(func() { onComplete(ctx) }); panicked != nil {
+							destination.ErrorWithContext(ctx, panicked)
+							return
+						}
+
 						destination.CompleteWithContext(ctx)
 					},
 				),
